@@ -7,6 +7,9 @@ import (
 	"debug/elf"
 	"debug/gosym"
 	"encoding/json"
+	"fmt"
+	mocker "github.com/tencent/goom"
+	"github.com/tencent/goom/zzverif/corpus/fn"
 	"os"
 	"runtime"
 	"strings"
@@ -145,6 +148,26 @@ func TestVerifSymLookup(t *testing.T) {
 				emit("var", "absent", bad, ok, int64(a))
 			}
 		}
+	}
+	// through the PUBLIC API, every name asked for TWICE (what a first lookup leaves behind must not change the answer of the
+	// second): Builder.UnExportedVar for present and absent variables, Builder.ExportFunc(...).As for absent functions
+	api := mocker.Create()
+	defer api.Reset()
+	for _, typ := range vars.UETypes {
+		name := vars.Name(typ, 1)
+		for _, nm := range []struct{ n, nc string }{{name, "present"}, {name + "zz", "absent"}, {strings.Replace(name, "vars.", "varz.", 1), "absent"}} {
+			for k := 0; k < 2; k++ {
+				found := catch(func() { api.UnExportedVar(nm.n) }) == ""
+				if nm.nc == "present" && !(functab && vartab) {
+					continue // (no ELF symbols in this build: the requirement for present variables is decided by the records above)
+				}
+				emit("var", nm.nc, nm.n+" (UnExportedVar, lookup "+fmt.Sprint(k+1)+")", found, 0)
+			}
+		}
+	}
+	for k := 0; k < 2; k++ {
+		found := catch(func() { api.Pkg(fn.Pkg).ExportFunc("nopeNope").As(func(int) int { return 0 }) }) == ""
+		emit("func", "absent", fn.Pkg+".nopeNope (ExportFunc.As, lookup "+fmt.Sprint(k+1)+")", found, 0)
 	}
 }
 
